@@ -20,6 +20,7 @@ def plan(tier, seed):
     q = tier == "quick"
     items = [("det", 1, 1), ("det", 4, 4), ("det", 16, 16)] + [("chunk", i, 32) for i in range(4)]
     items += [("typed", i, 8) for i in range(4 if q else 16)]
+    items += [("stream", 0, 64)]
     items += [("rand", i, 2) for i in range(8 if q else 256)]
     return items
 
